@@ -364,7 +364,7 @@ func checkWhoCalls(r *Reporter, p *Prog, pkg, typ, callee string, allowed []stri
 				return true
 			}
 			fn := staticCallee(info, c)
-			if fn == nil || fn.Name() != callee {
+			if fn == nil || funcName(fn) != callee {
 				return true
 			}
 			if rt := namedOfRecv(fn); rt == nil || rt.Obj().Name() != typ {
